@@ -250,6 +250,7 @@ theorem opRemove_rel_spec (run : ProbeRunner) (p : Path) {w : World} {fl : List 
         rw [i1] at hj'
         rw [i2, (hS.kindsOf _ A j c hA hj').1]; exact hrel
       exact List.mem_map.2 ⟨_, (hkeptMem _).2 ⟨hTex.complete j c hj hjr, hc⟩, rfl⟩)
+    ((hTex.nodup).sublist (List.Sublist.map _ List.filter_sublist))
     (by
       intro r hr
       obtain ⟨i, k1, k2, k3⟩ := hTex.sound r ((hkeptMem r).1 hr).1
